@@ -906,7 +906,25 @@ func ruleScanStart(c *Check, p *Prog) {
 		at := TermOf(st.Addr, n.Ctx)
 		return at.Op == "field" && at.Name == "DAHeight" && strings.HasSuffix(TermOf(st.Val, n.Ctx).String(), ".DA.StartHeight")
 	})
-	guarded := false
+	// the same raise written as one assignment: DAHeight = max(DAHeight, configured start)
+	isMaxRaise := func(v *Term) bool {
+		v = v.unconv()
+		if !(v.Op == "call" && v.Name == "max" && len(v.Args) == 2) {
+			return false
+		}
+		a, b := v.Args[0].String(), v.Args[1].String()
+		return (strings.HasSuffix(a, ".DAHeight") && strings.HasSuffix(b, ".DA.StartHeight")) || (strings.HasSuffix(b, ".DAHeight") && strings.HasSuffix(a, ".DA.StartHeight"))
+	}
+	maxRaise := g.Select(func(n *Node) bool {
+		st, ok := n.In.(*ssa.Store)
+		if !ok {
+			return false
+		}
+		at := TermOf(st.Addr, n.Ctx)
+		return at.Op == "field" && at.Name == "DAHeight" && isMaxRaise(TermOf(st.Val, n.Ctx))
+	})
+	guarded := len(maxRaise) > 0
+	raise = append(raise, maxRaise...)
 	for _, r := range raise {
 		for _, f := range g.NecessaryEdges(nodeSet([]*Node{r})) {
 			t := f.Cond
@@ -924,7 +942,7 @@ func ruleScanStart(c *Check, p *Prog) {
 			return false
 		}
 		at := TermOf(st.Addr, n.Ctx)
-		return at.Op == "field" && at.Name == "DAHeight" && !strings.HasSuffix(TermOf(st.Val, n.Ctx).String(), ".DA.StartHeight")
+		return at.Op == "field" && at.Name == "DAHeight" && !strings.HasSuffix(TermOf(st.Val, n.Ctx).String(), ".DA.StartHeight") && !isMaxRaise(TermOf(st.Val, n.Ctx))
 	}) {
 		if g.PathAvoiding([]*Node{n}, nodeSet(inits), nil) == nil {
 			continue
